@@ -13,17 +13,17 @@ CLAIMED = {
             'write result, contiguity guard, no discarded Result on the append chain, catalogue paired with log-list changes',
             'taint + edge dominance + discard analysis + pairing; batch that fills the file, last term on reopen, durable split-off bound', '3 C02'),
     'C03': ('erasure of the removed data/index range on every success path of strip_log_to, rewind completeness against the write-set '
-            'of write(), catalogue pairing, index-equality guard, recount honours count 0, cursors measured from the index entry of the cut point, adjacent-delta rewind, every listed log file is scanned', 'must-pass-through + field sets + pairing', '3 C03'),
+            'of write(), catalogue pairing, index-equality guard, recount honours count 0, cursors measured from the index entry of the cut point, adjacent-delta rewind, every listed log file is scanned, a new range never opens a left-over file, last_term re-derived after a truncation', 'must-pass-through + field sets + pairing', '3 C03'),
     'C04': ('write ordering (data before index, flush before Ok, snapshot publication order), single-writer ownership table, '
-            'fresh-image layout, last-applied after apply, recovery scan counts on every exit (else zero terminator), header before preallocation of a fresh log file, exclusive bound of the snapshot unlink loop', 'dominance / must-pass-through on MIR CFGs + who-may-call table', '3 C04'),
+            'fresh-image layout, last-applied after apply, recovery scan counts on every exit (else zero terminator), header before preallocation of a fresh log file, exclusive bound of the snapshot unlink loop, recovery scans by index interval and can write a missing index slot', 'dominance / must-pass-through on MIR CFGs + who-may-call table', '3 C04'),
     'C05': ('save routing and funnel into write_index under ctx.wait, fresh-file threshold below the smallest record, exclusive '
             'ownership of catalogue fields, reader/writer field agreement of the DTO codec, membership/addresses of an installed snapshot reach the index file; the answer of a save is delivered after its queued write (actor future), no read of a field whose assignment is still scheduled, every change_membership caller writes a Members entry', 'pairing + constant comparison + field sets', '3 C05'),
     'C06': ('error discipline on the config commit chain only: no discarded Result from the route to Raft::client_write, every caller '
-            'branches on the result, follower temp value only after the leader answered, follower apply path uses do_send only (no try_send / detached task)', 'discard analysis + call graph + dominance', '3 C06'),
+            'branches on the result, follower temp value only after the leader answered, follower apply path uses do_send only (no try_send / detached task); in the Raft core this tree resolves (async_raft_ext MIR): a joined node's replication state reaches the set the commit decision reads, last_applied is not moved over unapplied entries', 'discard analysis + call graph + dominance', '3 C06'),
     'C07': ('the three hand-written dispatch copies reduced to per-variant normal forms (actor, message, variant, field mapping) and '
             'compared; last-applied recording; order preservation on the follower path; the node-local tmp mark is raised only on different content; derived indexes are current when a replayed request reads them', 'sibling cross-check over normal forms', '3 C07'),
     'C08': ('install path reaches the state-machine loader on the call graph (with actix message edges), header membership persisted, '
-            'install file truncated, install order; membership saved on install comes from the installed header, not from a field still awaiting its scheduled assignment', 'call-graph reachability + taint + dominance', '3 C08'),
+            'install file truncated, install order; membership saved on install comes from the installed header, not from a field still awaiting its scheduled assignment; in the Raft core: a needed snapshot is not gated by the periodic threshold', 'call-graph reachability + taint + dominance', '3 C08'),
     'C09': ('value map <-> listing index pairing, md5 provenance from get_md5 of the same content, unchanged-content short circuit guard, '
             'history bound, key separator round trip (decoded format templates), index size counter guard, listing total = counter incremented by 1 under both filters', 'pairing + taint + guard analysis', '3 C09'),
     'C10': ('change implies both notifications on every path, subscriber entries dropped only when empty after the member removal, atomic compare-and-register (synchronous handler, complementary edges), '
